@@ -145,9 +145,12 @@ def large_eol(ctx, xh, xm3):
         if problem:
             nbad += 1
             if nbad <= 3:
+                textual = "line number" not in problem
                 ctx.violation("eol-large", {"what": "%s/%s (%s, %s entity): %s" % (a, sc, kind, "document" if where == "doc" else "external parsed", problem),
-                                            "request": req, "impl": [ev[:200] + "...", errs, fh],
-                                            "expect": {"fatal": False, "events": None}})
+                                            # the replay request drops the line-info flag so that the expected dump is exact
+                                            "request": " ".join(x if j != 5 else "-" for j, x in enumerate(req.split(" "))) if textual else req,
+                                            "impl": [ev[:200] + "...", errs, fh], "tag": "eol-large",
+                                            "expect": {"fatal": False, "events": ("S0072 " + want_text + " S0065 E0065 E0072") if textual else None}})
     ctx.coverage["large_eol_documents"] = len(docs)
     ctx.coverage["traces_validated_against_impl"] += len(lines)
 
@@ -206,8 +209,9 @@ def progressive(ctx, xh):
         nonlocal nbad
         nbad += 1
         if nbad <= 3:
-            ctx.violation("progressive", {"what": what, "request": req, "impl": o, "other": other,
-                                          "expect": {"fatal": False, "events": None}})
+            exp_ev = C02.parse_impl(other)[0] if other and " | " in other and not C02.parse_impl(other)[1] else None
+            ctx.violation("progressive", {"what": what, "request": req, "impl": o, "other": other, "tag": "progressive",
+                                          "expect": {"fatal": False, "events": exp_ev}})
     strip = lambda ev: " ".join(t for t in ev.split(" ") if not (t.startswith("R") or t.startswith("r"))) or "-"
     for (k, a, sc, ns, fl), (o, req) in res.items():
         ctx.count()
@@ -312,7 +316,9 @@ def run(ctx):
                                              "impl": [ev, errs, fh]})
             continue
         if ev == spec_line:
-            if model_line != spec_line:
+            # (IG with namespaces on and a value of the F3 class: the faithful model differs from the Spec; an
+            #  implementation that delivers the Spec value shows the repaired behaviour = Model03.attnorm_tok_inline)
+            if model_line != spec_line and not (s == "IG" and ns == 1 and want_ev(tok_inl, cd_m) == spec_line):
                 unexplained.append((k, a, s, ns, ev, model_line))
             continue
         # implementation violates section 3.3.3
